@@ -295,6 +295,9 @@ def _build(frames_per_rec, indirect, tif, table, maxpl, var=0, pad=0):
     if table:
         lrs.append(L.table_record(34, b'CONS', [(b'BS  ', [(b'VALU', 73, L.i32(85), b'IN  ')])]))
         kinds.append(34)
+    if var & 4:
+        # a format specification that is followed by no data at all (e.g. re-issued by the acquisition system), then the one that has the data
+        lrs.append(L.dfsr(chs, indirect, up=not (var & 1), spacing=5 if var & 2 else 60, spacing_units=b'FEET' if var & 2 else b'.1IN'))
     lrs.append(L.dfsr(chs, indirect, up=not (var & 1), spacing=5 if var & 2 else 60, spacing_units=b'FEET' if var & 2 else b'.1IN'))
     kinds.append(64)
     g = 0
@@ -344,8 +347,11 @@ def index_structure(nrec: int, f0: int, f1: int, f2: int, indirect: bool, tif: b
 
 def _index_structure(nrec, f0, f1, f2, indirect, tif, table, split, var=0):
     fpr = [f0, f1, f2][:nrec]
-    data, pos, kinds, model = _build(fpr, indirect, tif, table, 24 if split else None, var)
-    f = File.FileRead(SymFile(data), 'id', False)
+    # split files without TIF markers may also be null-padded to a multiple of 2 or 4 bytes after every physical record (and opened so):
+    # physical records of 25 bytes then need 3 (or 1) pad bytes, shorter last ones 0..3
+    pad = [0, 2, 4][(f0 + f1 + var) % 3] if (split and not tif) else 0
+    data, pos, kinds, model = _build(fpr, indirect, tif, table, (21 if pad else 24) if split else None, var, pad)
+    f = File.FileRead(SymFile(data), 'id', False, pad_modulo=pad) if pad else File.FileRead(SymFile(data), 'id', False)
     idx = FileIndexer.FileIndex(f)
     mark.hit()
     if list(idx.lrTypeS) != kinds:
